@@ -15,7 +15,11 @@ ALPHA_FULL = [E.DRAIN, E.TURN, E.TIMER, E.LONGWAIT, E.DISCONNECT, E.FORCE, E.CAN
 # reduced alphabet of the 4-event exploration (thorough tier)
 ALPHA_Q = [E.DRAIN, E.TURN, E.TIMER, E.LONGWAIT, E.DISCONNECT, E.FORCE, E.D_HELLO, E.D_CONNECT, E.D_GARBAGE, E.D_DISCREQ,
            E.D_DISCRESP, E.D_MSG, E.EOF, E.RESET, E.WRITEFAIL, E.D_PINGREQ]
-ALPHA = ALPHA_Q if shard_int("QA", 0) else ALPHA_FULL
+# quick tier, 3 events
+ALPHA_Q3 = [E.DRAIN, E.TURN, E.TIMER, E.LONGWAIT, E.DISCONNECT, E.FORCE, E.D_HELLO, E.D_CONNECT, E.D_GARBAGE, E.D_DISCREQ,
+            E.D_DISCRESP, E.D_MSG, E.EOF, E.RESET, E.WRITEFAIL, E.FLUSH, E.D_PINGREQ, E.FINISH]
+_QA = shard_int("QA", 0)
+ALPHA = ALPHA_Q if _QA == 1 else (ALPHA_Q3 if _QA == 2 else ALPHA_FULL)
 NA = len(ALPHA)
 SH0 = shard_int("SH0", 0)
 SH1 = shard_int("SH1", -1)  # thorough tier: the second event is fixed per shard as well
@@ -189,13 +193,15 @@ def _enabled_first(stage: int, noise: int = 0, alpha=None) -> list:
 
 def shards(tier: str) -> list:
     out = []
-    stages = [E.ST_OPENED, E.ST_HELLO_SENT, E.ST_CONNECTED, E.ST_DISCONNECTING] if tier == "quick" else \
+    quick = tier == "quick"
+    stages = [E.ST_OPENED, E.ST_HELLO_SENT, E.ST_CONNECTED, E.ST_DISCONNECTING] if quick else \
         [E.ST_CONNECTING, E.ST_OPENED, E.ST_HELLO_SENT, E.ST_CONNECTED, E.ST_DISCONNECTING]
+    alpha = ALPHA_Q3 if quick else ALPHA_FULL
     for st, nz in [(x, 0) for x in stages] + [(E.ST_HELLO_SENT, 1)]:
-        for i in _enabled_first(st, nz):
-            out.append({"fn": "h07_3", "env": {"STAGE": st, "SH0": i, "NOISE": nz, "QA": 0}, "cond_timeout": 600 if tier == "quick" else 1500, "path_timeout": 60,
-                        "desc": f"stage {E.STAGE_NAMES[st]}{' (noise: handshake pending)' if nz else ''}, first event {E.NAMES[ALPHA_FULL[i]]}, then 2 symbolic events (21-event alphabet)"})
-    if tier != "quick":
+        for i in _enabled_first(st, nz, alpha):
+            out.append({"fn": "h07_3", "env": {"STAGE": st, "SH0": i, "NOISE": nz, "QA": 2 if quick else 0}, "cond_timeout": 600 if quick else 1500, "path_timeout": 60,
+                        "desc": f"stage {E.STAGE_NAMES[st]}{' (noise: handshake pending)' if nz else ''}, first event {E.NAMES[alpha[i]]}, then 2 symbolic events ({len(alpha)}-event alphabet)"})
+    if not quick:
         for st, nz in [(E.ST_HELLO_SENT, 0), (E.ST_CONNECTED, 0), (E.ST_DISCONNECTING, 0)]:
             for i, j in E.enabled_pairs(_mk(st, nz), ALPHA_Q):
                 out.append({"fn": "h07_4", "env": {"STAGE": st, "SH0": i, "SH1": j, "NOISE": nz, "QA": 1}, "cond_timeout": 1500, "path_timeout": 60,
@@ -203,7 +209,7 @@ def shards(tier: str) -> list:
     return out
 
 
-BOUNDS = {"quick": "4 lifecycle stages x 3 events from a 21-event alphabet (close causes: DisconnectRequest, disconnect(), force_disconnect(), EOF, reset, write failure, ping timeout via 7K of silence, protocol errors; same-chunk and same-turn combinations)",
+BOUNDS = {"quick": "4 lifecycle stages (+ noise handshake stage) x 3 events from an 18-event alphabet (thorough: 21 events) (close causes: DisconnectRequest, disconnect(), force_disconnect(), EOF, reset, write failure, ping timeout via 7K of silence, protocol errors; same-chunk and same-turn combinations)",
           "thorough": "5 stages x 3 events (21-event alphabet) plus every sequence of 4 events from a 16-event alphabet after hello sent, connected, disconnecting"}
 OUTSIDE = ["sequences longer than the bound", "noise transport"]
 ASSUMPTIONS = ["SimLoop/SimTransport model of asyncio (see C05)",
